@@ -107,8 +107,12 @@ type cnode struct {
 }
 
 func (cn *cnode) watch() {
-	cn.learned = map[string]bool{}
-	cn.learnedLife = map[string]int64{}
+	// every life gets maps of its own: the watcher of an earlier life may still
+	// be draining that life's channel and must not write into this life's maps
+	learned, learnedLife := map[string]bool{}, map[string]int64{}
+	cn.mu.Lock()
+	cn.learned, cn.learnedLife = learned, learnedLife
+	cn.mu.Unlock()
 	cn.stopEv = make(chan struct{})
 	ch := cn.n.Events
 	stop := cn.stopEv
@@ -119,11 +123,11 @@ func (cn *cnode) watch() {
 				if me, ok := e.(serf.MemberEvent); ok {
 					cn.mu.Lock()
 					for _, m := range me.Members {
-						cn.learned[m.Name] = true
+						learned[m.Name] = true
 						if me.Type == serf.EventMemberJoin {
 							for _, o := range cn.all {
 								if o.name == m.Name {
-									cn.learnedLife[m.Name] = o.life.Load()
+									learnedLife[m.Name] = o.life.Load()
 								}
 							}
 						}
